@@ -638,10 +638,21 @@ def description(draw, max_cmds=7, allow_dirs=False, allow_deps=True, allow_extra
             cmds.append({"name": name, "tool": "symlink", "inputs": [], "outputs": [ln],
                          "contents": draw(st.sampled_from(avail))})
             avail.append(ln)
+    # a virtual node that is consumed (by a command and/or a target) while NO command produces it -- a
+    # description edit may give it a producer later
+    orphan = None
+    if allow_extra_tools and draw(st.integers(0, 4)) == 0:
+        orphan = "<u0>"
+        shells = [c for c in cmds if c["tool"] == "shell"]
+        if shells and draw(st.booleans()):
+            draw(st.sampled_from(shells))["inputs"].append(orphan)
     outs_all = [o for c in cmds for o in c["outputs"]]
     ntargets = draw(st.integers(1, 3))
     targets = {}
     for t in range(ntargets):
         k = draw(st.integers(1, min(3, len(outs_all))))
         targets["t%d" % t] = draw(st.permutations(outs_all))[:k]
+    if orphan and (draw(st.booleans()) or not any(orphan in c.get("inputs", []) for c in cmds)):
+        tk = draw(st.sampled_from(sorted(targets)))
+        targets[tk] = targets[tk] + [orphan]
     return {"commands": cmds, "targets": targets, "default": "t0", "sources": src_text, "includable": includable}
